@@ -80,11 +80,12 @@ def platform_facts():
                     else:
                         raise RuntimeError('longdouble(int) string limit not understood')
             if prec == 53:
+                # the C double itself: PyLong_AsDouble raises OverflowError instead of returning inf
                 try:
                     t(2 ** emax)
                     raise RuntimeError('float64(2**1024) did not raise')
                 except OverflowError:
-                    pass
+                    via, via_emax = 53, emax
         fmts.append(dict(name=name, prec=prec, emax=emax, via=via, via_emax=via_emax, strlim=strlim))
     facts['fmts'] = fmts
     bf = best_float()
@@ -114,11 +115,22 @@ def platform_facts():
         s, i = h.has_data_slope, h.has_data_intercept
         if not isinstance(s, bool) or not isinstance(i, bool):
             raise RuntimeError('capabilities not boolean for ' + nm)
-        caps.append(dict(name=nm, slope=s, inter=i, direct=False))
+        # dtype in which the loaded header hands the slope to the array proxy
+        f32 = False
+        if s:
+            hh = h()
+            hh['scl_slope'] = 2
+            sl = hh.get_slope_inter()[0]
+            dt = np.asanyarray(sl).dtype
+            if dt == np.float32:
+                f32 = True
+            elif dt != np.float64:
+                raise RuntimeError(f'{nm}: slope dtype {dt}')
+        caps.append(dict(name=nm, slope=s, inter=i, direct=False, f32=f32))
     src = inspect.getsource(MGHImage._write_data)
     if hasattr(MGHHeader, 'has_data_slope') or 'array_to_file(data, mghfile, out_dtype, offset)' not in src:
         raise RuntimeError('MGH write path changed')
-    caps.append(dict(name='mgh', slope=False, inter=False, direct=True))
+    caps.append(dict(name='mgh', slope=False, inter=False, direct=True, f32=False))
     facts['caps'] = caps
     return facts
 
@@ -148,7 +160,7 @@ def tables_text(facts):
     L.append('Definition all_itys : list ity := [' + '; '.join('ity_' + t['name'] for t in facts['itys']) + '].')
     L.append('')
     for c in facts['caps']:
-        L.append(f"Definition caps_{c['name']} : caps := mkCaps {coq_bool(c['slope'])} {coq_bool(c['inter'])} {coq_bool(c['direct'])}.")
+        L.append(f"Definition caps_{c['name']} : caps := mkCaps {coq_bool(c['slope'])} {coq_bool(c['inter'])} {coq_bool(c['direct'])} {coq_bool(c['f32'])}.")
     L.append('Definition all_caps : list caps := [' + '; '.join('caps_' + c['name'] for c in facts['caps']) + '].')
     L.append('')
     return '\n'.join(L)
@@ -247,6 +259,94 @@ def impl_int_op(op, args):
     raise RuntimeError('bad op ' + op)
 
 
+def _next_int_above(t, x):
+    """smallest integer representable in float type t that is > x (x representable); None if none"""
+    from fractions import Fraction
+    with np.errstate(all='ignore'):
+        nx = np.nextafter(t(x), t(np.inf))
+    if not np.isfinite(nx):
+        return None
+    if t is np.longdouble:
+        d = nx - t(x)                     # exact (a power of two)
+        return x + 1 if d < 1 else x + int(d)
+    f = Fraction(float(nx))
+    return x + 1 if f < x + 1 else int(f)
+
+
+def int_predicate(op, a, r):
+    """Direct statement of what the integer-layer function must return, evaluated on the
+    implementation's own result r (independent of the model).  None = holds."""
+    with warnings.catch_warnings():
+        warnings.simplefilter('ignore')
+        if op in ('fe', 'ce'):
+            t = np_flt(a[0])
+            v = a[1] if op == 'fe' else -a[1]           # ceil_exact(v) = -floor_exact(-v)
+            fmax = int(np.finfo(t).max)
+            if r == 'err value':
+                return None if t is np.longdouble and abs(v).bit_length() > 4000 else 'unexpected ValueError'
+            if not r.startswith('ok'):
+                return 'unexpected ' + r
+            x = r.split(None, 2)[1:]
+            if op == 'ce':      # mirror the result
+                x = {'pinf': ['ninf'], 'ninf': ['pinf']}.get(x[0], x if x[0] != 'fin' else ['fin', str(-int(x[1], 0))])
+            if x[0] == 'pinf':
+                return None if v > fmax else f'+inf returned although {zs(v)[:40]} <= largest finite'
+            if x[0] == 'ninf':
+                return None if v < -fmax else f'-inf returned although {zs(v)[:40]} >= -largest finite'
+            if x[0] != 'fin':
+                return 'not a number: ' + r[:40]
+            X = int(x[1], 0)
+            if X.bit_length() > 1100 and t is not np.longdouble:
+                return 'result beyond the format'
+            if int(t(X)) != X:
+                return f'{zs(X)[:40]} is not representable in {t.__name__}'
+            if X > v:
+                return f'floor result {zs(X)[:40]} > {zs(v)[:40]}'
+            nx = _next_int_above(t, X)
+            if nx is not None and nx <= v:
+                return f'{zs(nx)[:40]} is representable and lies in ({zs(X)[:40]}, {zs(v)[:40]}]: result is not the nearest'
+            return None
+        if op == 'sr':
+            t = np_flt(a[0])
+            ii = np.iinfo(INT_NAMES[a[1]])
+            p = r.split()
+            if p[0] != 'ok' or p[1] != 'fin' or p[3] != 'fin':
+                return 'shared_range not finite: ' + r
+            mn, mx = int(p[2], 0), int(p[4], 0)
+            if not (int(ii.min) <= mn <= 0 <= mx <= int(ii.max)):
+                return f'shared range [{mn}, {mx}] not inside the integer type'
+            if int(t(mn)) != mn or int(t(mx)) != mx:
+                return 'shared range bound not representable'
+            nx = _next_int_above(t, mx)
+            if nx is not None and nx <= int(ii.max):
+                return f'max {mx} is not the largest representable value <= {int(ii.max)}'
+            nb = _next_int_above(t, -mn)
+            if nb is not None and -nb >= int(ii.min):
+                return f'min {mn} is not the smallest representable value >= {int(ii.min)}'
+            return None
+        if op == 'ia':
+            return None if r == 'ok %d' % abs(a[1]) else f'int_abs({a[1]}) gave {r}'
+        if op == 'iu':
+            k, tin, tout, mn, mx = a
+            oi = np.iinfo(INT_NAMES[tout])
+            lo, hi = int(oi.min), int(oi.max)
+            p = r.split()
+            if p[:2] == ['ok', 'none']:
+                ok = (lo <= mn and mx <= hi) or (mn == 0 and mx == 0)
+                return None if ok else f'no scaling chosen but [{mn}, {mx}] does not fit {INT_NAMES[tout]}'
+            if p[:2] == ['ok', 'inter']:
+                i = int(p[2])
+                if int(np.float32(i)) != i:
+                    return f'intercept {i} is not a float32'
+                return None if (lo <= mn - i and mx - i <= hi) else f'intercept {i}: [{mn - i}, {mx - i}] does not fit {INT_NAMES[tout]}'
+            if p[:2] == ['ok', 'flip']:
+                return None if (lo <= -mx and -mn <= hi) else f'sign flip: [{-mx}, {-mn}] does not fit {INT_NAMES[tout]}'
+            if r == 'err writer':
+                return None if k == 0 and not (lo <= mn and mx <= hi) else 'refused although the data fit / the writer can scale'
+            return None
+    return None
+
+
 def interesting_ints(rng, n_random, fmts, big=True):
     """Integers around every rounding boundary of the formats: powers of two, +-1, half gaps,
     ties, the overflow thresholds, the integer type limits, plus random bit patterns."""
@@ -297,3 +397,1057 @@ def interesting_ints(rng, n_random, fmts, big=True):
         out.add(-v)
     out.add(0)
     return sorted(out)
+
+
+# --------------------------------------------------------------------------- float layer plumbing
+KINFO = {0: (11, 16, 'float16', 'uint16'), 1: (24, 128, 'float32', 'uint32'), 2: (53, 1024, 'float64', 'uint64')}
+
+
+def bits_to_sf(bits, k):
+    """IEEE bit pattern of format k -> the model's text form (canonical mantissa/exponent)."""
+    prec, emax = KINFO[k][:2]
+    w = {0: 16, 1: 32, 2: 64}[k]
+    ebits = w - prec
+    s = bits >> (w - 1)
+    E = (bits >> (prec - 1)) & ((1 << ebits) - 1)
+    F = bits & ((1 << (prec - 1)) - 1)
+    if E == (1 << ebits) - 1:
+        return 'n' if F else 'i%d' % s
+    if E == 0:
+        if F == 0:
+            return 'z%d' % s
+        return 'f%d:%d:%d' % (s, F, 3 - emax - prec)
+    return 'f%d:%d:%d' % (s, F + (1 << (prec - 1)), E - (emax - 1) - (prec - 1))
+
+
+def sf_to_fraction(t):
+    """model text form -> exact value (Fraction) or the strings 'nan', 'inf', '-inf'"""
+    from fractions import Fraction
+    if t == 'n':
+        return 'nan'
+    if t[0] == 'i':
+        return '-inf' if t[1] == '1' else 'inf'
+    if t[0] == 'z':
+        return Fraction(0)
+    s, m, e = t[1:].split(':')
+    v = Fraction(int(m)) * (Fraction(2) ** int(e))
+    return -v if s == '1' else v
+
+
+def float_to_sf(x, k):
+    """numpy float scalar of format k -> model text form"""
+    dt = np.dtype(KINFO[k][2])
+    bits = int(np.array(x, dtype=dt).view(KINFO[k][3]))
+    return bits_to_sf(bits, k)
+
+
+def canon_zero(t):
+    return 'z0' if t == 'z1' else t
+
+
+def layout(flat, shape, mem):
+    """flat = elements in logical Fortran order; returns the array of that shape in memory layout mem:
+    C, F (contiguous), T (transposed view of a C array: F-like strides, not owning), S (every second
+    element of a wider C buffer: non-contiguous)"""
+    a = flat.reshape(shape, order='F')
+    if mem == 'C':
+        return np.ascontiguousarray(a)
+    if mem == 'F':
+        return np.asfortranarray(a)
+    if mem == 'T':
+        return np.ascontiguousarray(a.T).T
+    if mem == 'S':
+        buf = np.zeros(a.shape[:-1] + (a.shape[-1] * 2,), dtype=a.dtype)
+        buf[..., ::2] = a
+        return buf[..., ::2]
+    raise ValueError(mem)
+
+
+def case_array(case):
+    if case['kind'] == 'f':
+        k = case['k']
+        flat = np.array(case['bits'], dtype=KINFO[k][3]).view(KINFO[k][2])
+    else:
+        flat = np.array(case['vals'], dtype=INT_NAMES[case['t']])
+    if 'shape' in case:
+        return layout(flat, tuple(case['shape']), case.get('mem', 'C'))
+    return flat
+
+
+def case_data_text(case):
+    if case['kind'] == 'f':
+        return 'f%d %d %s' % (case['k'], len(case['bits']), ' '.join(bits_to_sf(b, case['k']) for b in case['bits']))
+    return 'i%d %d %s' % (case['t'], len(case['vals']), ' '.join(str(v) for v in case['vals']))
+
+
+CLASS_CAPS = ['nifti1', 'nifti2', 'spm99', 'spm2', 'analyze', 'mgh']      # order of all_caps in Tables.v
+CLASS_OUT = {'nifti1': list(range(8)), 'nifti2': list(range(8)), 'spm99': [0, 3, 5], 'spm2': [0, 3, 5],
+             'analyze': [0, 3, 5], 'mgh': [0, 3, 5]}
+WKIND_OF_CLASS = {'nifti1': 2, 'nifti2': 2, 'spm99': 1, 'spm2': 1, 'analyze': 0}
+
+
+def image_class(name):
+    import nibabel as nib
+    from nibabel.spm99analyze import Spm99AnalyzeImage
+    from nibabel.spm2analyze import Spm2AnalyzeImage
+    from nibabel.analyze import AnalyzeImage
+    from nibabel.freesurfer.mghformat import MGHImage
+    return {'nifti1': nib.Nifti1Image, 'nifti2': nib.Nifti2Image, 'spm99': Spm99AnalyzeImage,
+            'spm2': Spm2AnalyzeImage, 'analyze': AnalyzeImage, 'mgh': MGHImage}[name]
+
+
+def classify_exception(e):
+    import traceback
+    from nibabel.arraywriters import WriterError, ScalingError
+    from nibabel.spatialimages import HeaderDataError, HeaderTypeError
+    fn = traceback.extract_tb(e.__traceback__)[-1]
+    where = f'{os.path.basename(fn.filename)}:{fn.name}'
+    msg = str(e)
+    if isinstance(e, ScalingError):
+        return 'scaling'
+    if isinstance(e, WriterError):
+        return 'writer'
+    if isinstance(e, HeaderTypeError):
+        return 'header_type'
+    if isinstance(e, HeaderDataError):
+        return 'header_data'
+    if isinstance(e, AssertionError):
+        return {'arraywriters.py:_range_scale': 'assert_nanfill', 'arraywriters.py:_iu2iu': 'assert_iu'}.get(where, 'assert@' + where)
+    if isinstance(e, ValueError):
+        if 'must be finite' in msg:
+            return 'value_notfinite'
+        if 'cannot be zero' in msg:
+            return 'value_slopezero'
+        if 'nan_fill' in msg:
+            return 'value_nanfill'
+    return f'other:{type(e).__name__}@{where}:{msg[:60]}'
+
+
+def warning_sites(wl):
+    """(site, message) of the RuntimeWarnings recorded; site = file:function of the raising line"""
+    import linecache
+    out = []
+    for w in wl:
+        if not issubclass(w.category, RuntimeWarning):
+            continue
+        line = (linecache.getline(w.filename, w.lineno) or '').strip()
+        base = os.path.basename(w.filename)
+        if 'astype(out_dtype)' in line and base == 'volumeutils.py':
+            site = 'write_cast'
+        elif base == 'arraywriters.py' and 'np.array(nan_fill_i, dtype=out_dtype)' in line:
+            site = 'range_scale_testcast'
+        else:
+            site = f'{base}:{w.lineno}:{line[:50]}'
+        out.append((site, str(w.message)))
+    return out
+
+
+def back_text(back):
+    """canonical text of the reloaded array: ints, or float64 values in the model's form"""
+    if back.dtype.kind in 'iu':
+        return '2:' + ','.join(str(int(v)) for v in back.ravel())
+    if back.dtype == np.float64:
+        return '2:' + ','.join(float_to_sf(v, 2) for v in back.ravel())
+    if back.dtype == np.float32:
+        return '1:' + ','.join(float_to_sf(v, 1) for v in back.ravel())
+    return '3:' + ','.join(repr(v) for v in back.ravel())
+
+
+def impl_write(case):
+    """Run the implementation on one array case.  Returns dict(status='ok'|'err <enum>', slope, inter
+    (model text form of the float32 values), raw (ints), back (array), warn (sites))."""
+    from nibabel.arraywriters import make_array_writer, get_slope_inter
+    from nibabel.volumeutils import apply_read_scaling, array_to_file
+    arr = case_array(case)
+    out = np.dtype(INT_NAMES[case['out']])
+    res = {}
+    with warnings.catch_warnings(record=True) as wl:
+        warnings.simplefilter('always')
+        try:
+            if case['route'] == 'w':
+                hs, hi = {0: (False, False), 1: (True, False), 2: (True, True)}[case['wk']]
+                w = make_array_writer(arr, out, hs, hi)
+                bio = io.BytesIO()
+                w.to_fileobj(bio)
+                slope, inter = get_slope_inter(w)
+                raw = np.frombuffer(bio.getvalue(), dtype=out)
+                slope32, inter32 = np.float32(slope), np.float32(inter)
+                if float(slope32) != float(slope) or float(inter32) != float(inter):
+                    raise RuntimeError('writer slope/inter are not float32 values')
+                # reload as ArrayProxy does: Python floats from the header fields
+                back = apply_read_scaling(raw, np.asanyarray(float(slope32)), np.asanyarray(float(inter32)))
+            else:
+                from nibabel.fileholders import FileHolder
+                klass = image_class(case['cls'])
+                hdr = klass.header_class()
+                hdr.set_data_dtype(out)
+                img = klass(arr if arr.ndim >= 3 else arr.reshape(arr.shape + (1,) * (3 - arr.ndim)), np.eye(4), header=hdr)
+                fm = {k: FileHolder(fileobj=io.BytesIO()) for k in klass.make_file_map()}
+                img.to_file_map(fm)
+                fm2 = {k: FileHolder(fileobj=io.BytesIO(v.fileobj.getvalue())) for k, v in fm.items()}
+                img2 = klass.from_file_map(fm2)
+                ps, pi = img2.dataobj.slope, img2.dataobj.inter
+                slope32, inter32 = np.float32(ps), np.float32(pi)
+                if float(slope32) != float(ps) or float(inter32) != float(pi):
+                    raise RuntimeError('proxy slope/inter are not float32 values')
+                raw = np.asarray(img2.dataobj.get_unscaled()).ravel(order='F')
+                if raw.dtype.newbyteorder('=') != out:
+                    raise RuntimeError(f'on-disk dtype {raw.dtype} is not {out}')
+                back = np.asarray(img2.dataobj).ravel(order='F')
+                res['proxy_slope'] = float(img2.dataobj.slope)
+                res['proxy_inter'] = float(img2.dataobj.inter)
+            res.update(status='ok', slope=float_to_sf(slope32, 1), inter=float_to_sf(inter32, 1),
+                       raw=[int(v) for v in raw.ravel()], back=back, slope_f=float(slope32), inter_f=float(inter32))
+        except Exception as e:  # noqa: every exception is a refusal, classified by type and site
+            res.update(status='err ' + classify_exception(e))
+    res['warn'] = warning_sites(wl)
+    return res
+
+
+def model_line(i, case):
+    if case['route'] == 'w':
+        return f"{i} w {case['wk']} {case['out']} {case_data_text(case)}"
+    return f"{i} img {CLASS_CAPS.index(case['cls'])} {case['out']} {case_data_text(case)}"
+
+
+def parse_model(r):
+    """model output -> dict like impl_write's"""
+    if r.startswith('err'):
+        return {'status': r}
+    p = r.split()
+    d = {'status': 'ok', 'slope': p[1], 'inter': p[2]}
+    for tok in p[3:]:
+        k, _, v = tok.partition('=')
+        d[k] = v
+    d['raw'] = [int(x) for x in d['raw'].strip('[]').split(',') if x]
+    return d
+
+
+# --------------------------------------------------------------------------- array cases
+def _fbits(vals, k):
+    with np.errstate(all='ignore'):
+        a = np.array(vals, dtype=np.float64).astype(KINFO[k][2])
+    return [int(b) for b in np.atleast_1d(a).view(KINFO[k][3])]
+
+
+def fcase(k, vals, out, **kw):
+    return dict(kind='f', k=k, bits=_fbits(vals, k), out=out, **kw)
+
+
+def icase(t, vals, out, **kw):
+    ii = np.iinfo(INT_NAMES[t])
+    return dict(kind='i', t=t, vals=[max(int(ii.min), min(int(ii.max), int(v))) for v in vals], out=out, **kw)
+
+
+CONSTS = [16777219.0, 0.1, -3.7, 1e30, 2.0 ** 53 + 2, 65504.0, 1e-40, 7.0, 33554435.0, -16777217.0, 1e38, 3e38,
+          1e-45, 255.0, 256.0, -128.5, 1e300, -1e-310, 4294967297.0, 0.5, -0.5, 2.0 ** 63, -2.0 ** 63 - 1025]
+
+
+QUICK_CORE_SKIP = ('nifti2', 'spm2')      # same code path as nifti1 / spm99 up to the header class
+
+
+def routes_for(out, rng=None, all_routes=False):
+    """the ways a case can be written: the three writer classes directly, and every image class
+    that supports the on-disk type"""
+    r = [dict(route='w', wk=wk) for wk in (2, 1, 0)]
+    r += [dict(route='img', cls=c) for c in CLASS_CAPS if out in CLASS_OUT[c]]
+    return r
+
+
+def offset_boundaries(t, out):
+    """(min, max) pairs on the boundary of the offset-only decision of _iu2iu: the data range equals
+    the output range (+-1) and the minimum is (not) a float32, so that floor_exact(min) moves the
+    data by 0, 1 or 2 against the upper limit"""
+    ti, oi = np.iinfo(INT_NAMES[t]), np.iinfo(INT_NAMES[out])
+    R = int(oi.max) - int(oi.min)
+    res = []
+    if R >= 2 ** 24:
+        return res
+    for base in (2 ** 24 + 1, 2 ** 24 + 2, 2 ** 25 + 2, 2 ** 25 + 3, -(2 ** 24) - 1 - R, -(2 ** 25) - 3 - R, 5, -5 - R):
+        for span in (R, R - 1, R + 1):
+            if int(ti.min) <= base and base + span <= int(ti.max):
+                res.append([base, base + span])
+    return res
+
+
+def core_cases(quick=False):
+    """seed-independent part: constants, type-limit ranges, NaN/inf mixtures, all-NaN, all-zero, tiny and
+    huge ranges x every integer on-disk type x every route"""
+    cases = []
+    nan, inf = float('nan'), float('inf')
+    for out in range(8):
+        ii = np.iinfo(INT_NAMES[out])
+        lo, hi = float(ii.min), float(ii.max)
+        arrays = []
+        for k in (0, 1, 2):
+            arrays += [(k, [c] * 2) for c in CONSTS[:8]] if k != 2 else [(k, [c] * 2) for c in CONSTS]
+            arrays += [(k, [0.0, hi]), (k, [lo, 0.0]), (k, [lo, hi]), (k, [0.0, hi + 0.49]), (k, [lo - 0.49, 1.0]),
+                       (k, [0.0, hi * 2]), (k, [1.0, 2.0, hi + 1]), (k, [lo - 1, -1.0]),
+                       (k, [nan, 1.5, 3.0]), (k, [nan, inf, -inf, -34.567]), (k, [nan, nan]), (k, [inf, -inf]),
+                       (k, [0.0, 0.0]), (k, [0.0, nan]), (k, [0.0, inf]), (k, [-0.0, 0.0, 5.0]), (k, [nan, 10.0, 60.0]),
+                       (k, [nan, -10.0, -60.0]), (k, [1e-40, 1e38]), (k, [1.8e-41, -4.4e-41, 7.7e-41]),
+                       (k, [-1e-40, 3e38]), (k, [1e-7, 2e-7]), (k, [100.0, 100.0 + 2.0 ** -10]),
+                       (k, [-3e38, 3e38]), (k, [nan, 1e30, inf]), (k, [-5.0, 250.0]), (k, [-250.0, 0.0])]
+        for k, vals in arrays:
+            for r in routes_for(out):
+                if quick and r.get('cls') in QUICK_CORE_SKIP:
+                    continue
+                cases.append(fcase(k, vals, out, **r))
+        for t in range(8):
+            ti = np.iinfo(INT_NAMES[t])
+            tl, th = int(ti.min), int(ti.max)
+            for vals in list(([tl, th], [tl, 0], [0, th], [th - 200, th], [tl, tl + 200], [0, 0], [3, 3], [tl, tl],
+                         [th, th], [-5, 250], [-250, 0], [-1, 1], [100, 300], [2 ** 24 + 1, 2 ** 24 + 201],
+                         [-2 ** 31, 2 ** 31 - 1], [0, 2 ** 32], [2 ** 53 + 1, 2 ** 53 + 3])) + offset_boundaries(t, out):
+                for nr, r in enumerate(routes_for(out)):
+                    if quick and (r.get('cls') in QUICK_CORE_SKIP or
+                                  (r['route'] == 'img' and (nr + t + out + len(cases)) % 2)):
+                        continue
+                    cases.append(icase(t, vals, out, **r))
+    return cases
+
+
+SHAPES = [(4, 4), (2, 3, 4), (3, 1, 5), (4, 4, 1), (2, 2, 2, 2), (2, 8), (5, 3), (1, 4, 3)]
+
+
+def slab_array(shape, mem, slabs):
+    """Build the logical-F-order element list of an array of `shape` whose finite_range slabs (rows
+    along the slowest memory axis) are the given lists.  For C-like layouts the slabs run along the
+    first axis, for F-like layouts (F, T) along the last."""
+    sl = np.array(slabs, dtype=np.float64)
+    if mem in ('C', 'S'):
+        a = sl.reshape(shape)                       # slab i = a[i]
+    else:
+        a = sl.reshape(shape[::-1]).T               # slab i = a[..., i]
+    return a.ravel(order='F')
+
+
+def slab_dims(shape, mem):
+    n = shape[0] if mem in ('C', 'S') else shape[-1]
+    return n, int(np.prod(shape)) // n
+
+
+def slab_patterns(nsl, size, big=1000.0):
+    """NaN / inf / extreme placements relative to the slabs (the cached flags of finite_range are per
+    slab): every pattern is a list of nsl slabs of `size` values"""
+    nan, inf = float('nan'), float('inf')
+
+    def base():
+        return [[float((3 * i + 7 * j) % 10) + 0.25 for j in range(size)] for i in range(nsl)]
+    pats = []
+    last = nsl - 1
+    p = base(); p[last][0] = nan; p[last][size - 1] = big; pats.append(('clean_first_nan_later_max_same', p))
+    if nsl > 2:
+        p = base(); p[1][0] = nan; p[last][size - 1] = big; pats.append(('clean_first_nan_mid_max_after', p))
+        p = base(); p[1] = [nan] * size; p[last][0] = -big; pats.append(('all_nan_slab_mid_min_after', p))
+        p = base(); p[1] = [inf] * size; p[last][0] = big; pats.append(('all_inf_slab_mid_max_after', p))
+    p = base(); p[0][0] = nan; p[last][size - 1] = big; pats.append(('nan_first_max_last', p))
+    p = base(); p[0][size - 1] = big; p[last][0] = nan; p[last][size - 1] = -big; pats.append(('max_first_nan_later_min_same', p))
+    p = base(); p[last][0] = inf; p[last][size - 1] = big; pats.append(('inf_later_max_same', p))
+    p = base(); p[0][0] = -inf; p[last][0] = -big; pats.append(('ninf_first_min_later', p))
+    p = base(); p[last][0] = nan; p[last][size - 1] = -big; pats.append(('clean_first_nan_later_min_same', p))
+    p = base(); p[last][0] = nan; p[last][size - 1] = inf; p[0][0] = big; pats.append(('nan_and_inf_later', p))
+    p = base(); p[0][0] = inf; p[last][0] = nan; p[last][size - 1] = big; pats.append(('inf_first_nan_later_max_same', p))
+    p = base(); p[last][size - 1] = big; pats.append(('no_nan_max_last', p))
+    return pats
+
+
+def multislab_core(quick=False):
+    """seed-independent multi-slab arrays: 2-D/3-D/4-D shapes x memory layouts x NaN/inf/extreme
+    placements per slab, through the array writers directly and through the image classes"""
+    cases = []
+    n = 0
+    for shape in SHAPES:
+        for mem in ('C', 'F', 'T', 'S'):
+            nsl, size = slab_dims(shape, mem)
+            if nsl < 2:
+                continue
+            for name, slabs in slab_patterns(nsl, size):
+                flat = slab_array(shape, mem, slabs)
+                for out in (0, 3, 5, 6):
+                    for k in (1, 2, 0):
+                        routes = routes_for(out)
+                        if k == 0:
+                            routes = [r for r in routes if r['route'] == 'w']
+                        for r in routes:
+                            if r.get('cls') == 'mgh' and not 3 <= len(shape) <= 4:
+                                continue
+                            n += 1
+                            if quick and (r.get('cls') in QUICK_CORE_SKIP or n % 7):
+                                continue
+                            c = fcase(k, list(flat), out, **r)
+                            c.update(shape=list(shape), mem=mem, fam='slab:' + name)
+                            cases.append(c)
+    return cases
+
+
+def multislab_random(rng, n):
+    nan, inf = float('nan'), float('inf')
+    cases = []
+    for _ in range(n):
+        shape = rng.choice(SHAPES)
+        mem = rng.choice(['C', 'F', 'T', 'S'])
+        nsl, size = slab_dims(shape, mem)
+        scale = 10.0 ** rng.randint(-3, 6)
+        slabs = [[rng.gauss(0, 1) * scale for _ in range(size)] for _ in range(nsl)]
+        for _ in range(rng.choice([1, 1, 2, 3])):
+            slabs[rng.randrange(nsl)][rng.randrange(size)] = rng.choice([nan, nan, inf, -inf])
+        if rng.random() < 0.7:     # an extreme value in a late slab
+            slabs[rng.randrange(max(0, nsl - 2), nsl)][rng.randrange(size)] = rng.choice([1, -1]) * scale * rng.choice([50, 1e3, 1e6])
+        if rng.random() < 0.15:
+            slabs[rng.randrange(nsl)] = [rng.choice([nan, inf, -inf])] * size
+        out = rng.randrange(8)
+        k = rng.choice([1, 2, 2, 0])
+        routes = routes_for(out)
+        if k == 0:
+            routes = [r for r in routes if r['route'] == 'w']
+        routes = [r for r in routes if not (r.get('cls') == 'mgh' and not 3 <= len(shape) <= 4)]
+        c = fcase(k, list(slab_array(shape, mem, slabs)), out, **rng.choice(routes))
+        c.update(shape=list(shape), mem=mem, fam='slab:random')
+        cases.append(c)
+    return cases
+
+
+def finite_range_item(chk, cases, mod_lines_prefix='R'):
+    """finite_range(arr) and finite_range(arr, check_nan=True) against the exact (min, max, has_nan) over
+    the finite elements (direct predicate) and against the model's finite_range_f.  Returns the
+    model lines and a function evaluating the results."""
+    from nibabel.volumeutils import finite_range
+    sel, seen = [], set()
+    for i, c in enumerate(cases):
+        if c['kind'] == 'f' and ('shape' in c or i % 5 == 0):
+            key = (c['k'], tuple(c['bits']), tuple(c.get('shape', ())), c.get('mem'))
+            if key not in seen:       # the same array is written through several routes / on-disk types
+                seen.add(key)
+                sel.append((i, c))
+    lines = [f"R{i} fr {c['k']} {len(c['bits'])} " + ' '.join(bits_to_sf(b, c['k']) for b in c['bits']) for i, c in sel]
+
+    def evaluate(mod):
+        for i, c in sel:
+            arr = case_array(c)
+            k = c['k']
+            with warnings.catch_warnings():
+                warnings.simplefilter('ignore')
+                mn, mx, hn = finite_range(arr, check_nan=True)
+                mn2, mx2 = finite_range(arr)
+            xs = exact_inputs(c)
+            fin = [x for x in xs if not isinstance(x, str)]
+            want_hn = any(x == 'nan' for x in xs)
+            got = (sf_to_fraction(float_to_sf(mn, k)), sf_to_fraction(float_to_sf(mx, k)), bool(hn))
+            got2 = (sf_to_fraction(float_to_sf(mn2, k)), sf_to_fraction(float_to_sf(mx2, k)))
+            want = (min(fin), max(fin), want_hn) if fin else ('inf', '-inf', want_hn)
+            chk.count(key=('finite_range', tuple(c.get('shape', ())), c.get('mem'), k, tuple(c['bits'])),
+                      tag='finite_range:' + ('multislab' if 'shape' in c else 'flat'))
+            pred = None
+            if got != want:
+                pred = f'finite_range(arr, check_nan=True) = {got[0]!s}, {got[1]!s}, {got[2]} but the finite elements have min {want[0]!s}, max {want[1]!s}, has_nan {want[2]}'
+            elif got2 != want[:2]:
+                pred = f'finite_range(arr) = {got2[0]!s}, {got2[1]!s} but the finite elements have min {want[0]!s}, max {want[1]!s}'
+            impl_txt = 'ok %s %s %d' % (canon_zero(float_to_sf(mn, k)), canon_zero(float_to_sf(mx, k)), int(bool(hn)))
+            m = mod.get(f'R{i}', '<missing>').split()
+            m_txt = ' '.join([m[0]] + [canon_zero(t) for t in m[1:3]] + m[3:]) if len(m) == 4 else ' '.join(m)
+            if pred:
+                chk.violation('property_violation', case=case_desc(c), predicate=pred, impl_output=impl_txt, model_output=m_txt)
+            if impl_txt != m_txt:
+                chk.disagreements += 1
+                if not pred:
+                    chk.violation('correspondence', case=case_desc(c), impl_output=impl_txt, model_output=m_txt, found_input=False,
+                                  predicate='finite_range: model and implementation disagree; the direct predicate holds',
+                                  theorem='correspondence C02/ModelF.v finite_range_f <-> nibabel/volumeutils.py finite_range')
+    return lines, evaluate
+
+
+def random_cases(rng, n):
+    cases = []
+    nan, inf = float('nan'), float('inf')
+    for _ in range(n):
+        out = rng.randrange(8)
+        ii = np.iinfo(INT_NAMES[out])
+        lo, hi = float(ii.min), float(ii.max)
+        r = rng.choice(routes_for(out))
+        ne = rng.choice([1, 2, 2, 3, 4, 5, 8, 16])
+        if rng.random() < 0.72:
+            k = rng.choice([0, 1, 1, 2, 2])
+            fam = rng.choice(['const', 'onesided', 'wide', 'tiny', 'span', 'mixed', 'limits', 'integral', 'nan0',
+                              'huge', 'narrow', 'allnan', 'zero'])
+            g = rng.gauss
+            if fam == 'const':
+                vals = [rng.choice(CONSTS + [g(0, 1) * 10 ** rng.randint(-5, 20)])] * ne
+            elif fam == 'onesided':
+                base = rng.choice([0.0, 1.0, -1.0, 100.0, -1e5, hi, lo])
+                sc = 10.0 ** rng.randint(-3, 6)
+                vals = [base + abs(g(0, 1)) * sc * rng.choice([1, 1, -1]) for _ in range(ne)]
+                if rng.random() < 0.5:
+                    vals[0] = base
+            elif fam == 'wide':
+                vals = [g(0, 1) * 10.0 ** rng.randint(-30, 30) for _ in range(ne)]
+            elif fam == 'tiny':
+                vals = [g(0, 1) * rng.choice([1e-40, 1e-38, 1e-44, 1e-310, 1e-7]) for _ in range(ne)]
+            elif fam == 'span':
+                vals = [rng.choice([1, -1]) * 10.0 ** rng.uniform(-40, 38) for _ in range(ne)]
+            elif fam == 'mixed':
+                vals = [g(0, 100) for _ in range(ne)]
+                vals[0] = nan
+                if ne > 2:
+                    vals[1] = inf
+                    vals[2] = -inf
+                elif ne > 1:
+                    vals[1] = rng.choice([inf, -inf])
+            elif fam == 'limits':
+                vals = [rng.choice([lo, hi, 0.0, lo - 0.5, hi + 0.5, lo + 1, hi - 1, hi * 2, lo * 2 - 2, hi / 2])
+                        + rng.choice([0.0, 0.0, 0.25, -0.25, 0.5, 1.0]) for _ in range(ne)]
+            elif fam == 'integral':
+                vals = [float(rng.randint(int(lo), int(hi))) for _ in range(ne)]
+            elif fam == 'nan0':
+                s = rng.choice([1, -1])
+                vals = [s * (abs(g(0, 1)) * 50 + 10) for _ in range(ne)]
+                vals[0] = nan
+            elif fam == 'huge':
+                vals = [g(0, 1) * rng.choice([1e38, 3e38, 1e300, 1e308, 6e4, 1e19, 1.8e19]) for _ in range(ne)]
+            elif fam == 'narrow':
+                c = g(0, 1) * 10.0 ** rng.randint(0, 12)
+                vals = [c * (1 + rng.random() * 2.0 ** -rng.randint(10, 45)) for _ in range(ne)]
+            elif fam == 'allnan':
+                vals = [rng.choice([nan, nan, inf, -inf]) for _ in range(ne)]
+            else:
+                vals = [rng.choice([0.0, -0.0, 0.0, nan, inf]) if rng.random() < 0.3 else 0.0 for _ in range(ne)]
+            c = fcase(k, vals, out, **r)
+            c['fam'] = fam
+        else:
+            t = rng.randrange(8)
+            ti = np.iinfo(INT_NAMES[t])
+            tl, th = int(ti.min), int(ti.max)
+            fam = rng.choice(['full', 'rand', 'offset', 'neg', 'outlim', 'const', 'small'])
+            if fam == 'full':
+                vals = [tl, th] + [rng.randint(tl, th) for _ in range(ne)]
+            elif fam == 'rand':
+                b = rng.randint(1, ti.bits)
+                vals = [rng.choice([-1, 1]) * rng.getrandbits(b) for _ in range(ne)]
+            elif fam == 'offset':
+                base = rng.randint(tl, th)
+                span = rng.choice([int(hi - lo), int(hi - lo) + 1, int(hi - lo) // 2, 200, 2 ** 24, int(hi - lo) - 1,
+                                   int(hi - lo) - 130])
+                vals = [base, base + span] + [base + rng.randint(0, max(1, span)) for _ in range(ne)]
+            elif fam == 'neg':
+                m = rng.choice([int(hi), int(hi) + 1, int(hi) // 2, 2 ** 24 + 1, int(hi) - 1, 127, 128, 255, 256])
+                vals = [-m, 0][:rng.choice([1, 2])] + [-rng.randint(0, m) for _ in range(ne)]
+            elif fam == 'outlim':
+                vals = [rng.choice([int(lo), int(hi), int(lo) - 1, int(hi) + 1, 0, int(hi) // 2]) + rng.choice([0, 1, -1])
+                        for _ in range(ne + 1)]
+            elif fam == 'const':
+                vals = [rng.choice([tl, th, 0, 3, rng.randint(tl, th), 2 ** 24 + 3])] * ne
+            else:
+                vals = [rng.randint(-300, 300) for _ in range(ne)]
+            c = icase(t, vals[:16], out, **r)
+            c['fam'] = 'int:' + fam
+        cases.append(c)
+    return cases
+
+
+# --------------------------------------------------------------------------- the property predicate
+FLOAT_ALLOWANCE = ('(|inter| + max|finite input|) * 2^-22 + |slope| * 2^-20  (rounding of the float32 slope/intercept '
+                   'actually stored and of the working-precision arithmetic; float32 reload for SPM)')
+
+
+def exact_inputs(case):
+    from fractions import Fraction
+    if case['kind'] == 'i':
+        return [Fraction(v) for v in case['vals']]
+    out = []
+    for b in case['bits']:
+        out.append(sf_to_fraction(bits_to_sf(b, case['k'])))
+    return out
+
+
+def predicate(case, r):
+    """The property evaluated directly on the implementation's result r (status ok).  Returns None
+    (holds) or a text saying what fails."""
+    from fractions import Fraction
+    xs = exact_inputs(case)
+    back = r['back']
+    fin = [x for x in xs if not isinstance(x, str)]
+    has_nan = any(x == 'nan' for x in xs)
+    mn_f = min(fin) if fin else Fraction(0)
+    mx_f = max(fin) if fin else Fraction(0)
+    lo = min(mn_f, 0) if has_nan else mn_f
+    hi = max(mx_f, 0) if has_nan else mx_f
+    step = abs(Fraction(r['slope_f']))
+    inter = Fraction(r['inter_f'])
+    allow = (abs(inter) + max(abs(lo), abs(hi))) * Fraction(1, 2 ** 22) + step * Fraction(1, 2 ** 20)
+    bs = []
+    for v in back.ravel():
+        if back.dtype.kind == 'f' and not np.isfinite(v):
+            return f'reloaded value {v!r} is not finite'
+        bs.append(Fraction(int(v)) if back.dtype.kind in 'iu' else Fraction(float(v)))
+    if len(bs) != len(xs):
+        return 'reloaded array has another length'
+    for j, (x, b) in enumerate(zip(xs, bs)):
+        if b > hi + step + allow or b < lo - step - allow:
+            return (f'element {j}: reloaded {float(b)!r} leaves the finite input range [{float(lo)!r}, {float(hi)!r}] '
+                    f'by more than one step ({float(step)!r}) [wrap-around or clipping]')
+        if x == 'nan':
+            if abs(b) > step / 2 + allow:
+                return f'element {j}: NaN reloads as {float(b)!r}, not ~0 (step {float(step)!r})'
+        elif x == 'inf':
+            if abs(b - mx_f) > step + allow:
+                return f'element {j}: +inf reloads as {float(b)!r}, largest finite input is {float(mx_f)!r}'
+        elif x == '-inf':
+            if abs(b - mn_f) > step + allow:
+                return f'element {j}: -inf reloads as {float(b)!r}, smallest finite input is {float(mn_f)!r}'
+        else:
+            if abs(b - x) > step / 2 + allow:
+                return (f'element {j}: {float(x)!r} reloads as {float(b)!r}: error {float(abs(b - x))!r} > step/2 '
+                        f'({float(step / 2)!r}) + allowance ({float(allow)!r})')
+    return None
+
+
+def known_signature(case, r, pred):
+    """Structural classification of a predicate failure (call site + input shape)."""
+    from fractions import Fraction
+    if case.get('cls') == 'mgh':
+        ii = np.iinfo(INT_NAMES[case['out']])
+        xs = exact_inputs(case)
+        if any(isinstance(x, str) and x != 'nan' for x in xs) or \
+                any((not isinstance(x, str)) and (x < int(ii.min) - Fraction(1, 2) or x > int(ii.max) + Fraction(1, 2)) for x in xs):
+            return 'S-C02b'
+    s = abs(r.get('slope_f', 1.0))
+    if r.get('status') == 'ok' and 0 < s < 2.0 ** -126:
+        return 'S-C02c'
+    return None
+
+
+# --------------------------------------------------------------------------- the check
+UNPROVED = [
+    'C02_float_gap_partial: NOT PROVED - that the exact float pipeline (float32 rounding of slope and intercept, '
+    'working-precision subtraction/division, float64/float32 reload) stays within the stated allowance of the '
+    'ideal (rational) pipeline; it is measured on every case by the direct predicate and the float layer is '
+    'tied to the implementation bit for bit',
+    'NumPy rint / clip / astype / int->float conversions are modelled (Flocq Bnearbyint, Bcompare, binary_normalize) '
+    'and compared bit for bit, not verified',
+]
+
+
+def sf_coq(t):
+    if t == 'n':
+        return 'S754_nan'
+    if t[0] == 'z':
+        return 'S754_zero ' + ('true' if t[1] == '1' else 'false')
+    if t[0] == 'i':
+        return 'S754_infinity ' + ('true' if t[1] == '1' else 'false')
+    s, m, e = t[1:].split(':')
+    return 'S754_finite %s %s (%s)' % ('true' if s == '1' else 'false', m, e)
+
+
+def case_coq_data(case):
+    if case['kind'] == 'f':
+        return 'InF %s [%s]' % (['K16', 'K32', 'K64'][case['k']],
+                                '; '.join(sf_coq(bits_to_sf(b, case['k'])) for b in case['bits']))
+    return 'InI ity_%s [%s]' % (INT_NAMES[case['t']], '; '.join('(%d)' % v for v in case['vals']))
+
+
+def case_coq_call(case):
+    t = 'ity_' + INT_NAMES[case['out']]
+    if case['route'] == 'w':
+        return 'writer_write %s (%s) %s' % (['WPlain', 'WSlope', 'WSlopeInter'][case['wk']], case_coq_data(case), t)
+    return 'image_write caps_%s (%s) %s' % (case['cls'], case_coq_data(case), t)
+
+
+def case_desc(c):
+    d = {k: c[k] for k in ('kind', 'out', 'route') if k in c}
+    for k in ('k', 'bits', 't', 'vals', 'wk', 'cls', 'fam', 'shape', 'mem'):
+        if k in c:
+            d[k] = c[k]
+    d['in_dtype'] = KINFO[c['k']][2] if c['kind'] == 'f' else INT_NAMES[c['t']]
+    d['out_dtype'] = INT_NAMES[c['out']]
+    d['values'] = [repr(v) for v in case_array(c).ravel(order='F').tolist()]
+    d['note'] = 'values/bits are listed in logical Fortran order of the array of the given shape; mem = memory layout'
+    return d
+
+
+def int_layer(chk, facts):
+    """correspondence of the integer layer; returns (lines, ops)"""
+    rng = chk.rng
+    vals = interesting_ints(rng, chk.n(260, 4000), facts['fmts'], big=False)
+    small = [v for v in vals if v.bit_length() <= 140]
+    mid = [v for v in vals if 140 < v.bit_length() <= 1100]
+    if chk.tier == 'quick':
+        mid = sorted(mid, key=lambda v: (v.bit_length(), v))[::7]
+    # a handful of huge integers (exponent range of longdouble, the CPython string limit)
+    huge = []
+    for f in facts['fmts']:
+        if f['emax'] > 1100:
+            p, em = f['prec'], f['emax']
+            mx = 2 ** em - 2 ** (em - p)
+            huge += [mx, mx + 2 ** (em - p - 1), -(mx + 2 ** (em - p - 1)) + 1]
+        if f['strlim']:
+            huge += [10 ** f['strlim'] - 1, 10 ** f['strlim'], -(10 ** f['strlim'])]
+    ops = []
+    quick = chk.tier == 'quick'
+    for fi, f in enumerate(facts['fmts']):
+        for n, v in enumerate(small + mid):
+            # floor_exact/ceil_exact call the conversion themselves; in the quick tier the bare
+            # conversion is compared on every third value only, ceil on every second
+            for op in ('conv', 'fe', 'ce'):
+                if quick and ((op == 'conv' and n % 3) or (op == 'ce' and n % 2)):
+                    continue
+                ops.append((op, [fi, v]))
+        if f['emax'] > 1100:
+            for v in huge:
+                ops.append(('fe', [fi, v]))
+    for v in small:
+        if v:
+            ops.append(('fl2', [v]))
+    for fi in range(len(facts['fmts'])):
+        for ti in range(8):
+            ops.append(('sr', [fi, ti]))
+    for a in range(8):
+        for b in range(8):
+            ops.append(('cc', [a, b]))
+
+    def tvals(t, k):
+        ii = np.iinfo(INT_NAMES[t])
+        lo, hi = int(ii.min), int(ii.max)
+        s = {lo, lo + 1, hi, hi - 1, 0, 1, -1, 2, lo // 2, hi // 2, hi // 2 + 1, lo // 2 - 1, 127, 128, 255, 256, -128,
+             -129, 32767, 32768, -32768, -32769, 65535, 65536, 2 ** 31 - 1, 2 ** 31, -2 ** 31, -2 ** 31 - 1, 2 ** 32 - 1,
+             2 ** 32, 2 ** 63 - 1, 2 ** 63, -2 ** 63, 2 ** 24, 2 ** 24 + 1, 2 ** 24 - 1, -2 ** 24 - 1, 2 ** 53 + 1,
+             2 ** 63 - 2 ** 39, 2 ** 63 - 2 ** 39 + 1, 2 ** 64 - 2 ** 40, 2 ** 64 - 2 ** 40 + 1}
+        for _ in range(k):
+            s.add(rng.randrange(lo, hi + 1))
+            b = rng.randrange(1, ii.bits + 1)
+            s.add(max(lo, min(hi, rng.choice([-1, 1]) * rng.getrandbits(b))))
+        return sorted(v for v in s if lo <= v <= hi)
+    for t in range(8):
+        for v in tvals(t, 10):
+            ops.append(('ia', [t, v]))
+        for v in tvals(7, 4) + tvals(6, 4):
+            ops.append(('wrap', [t, v]))
+    npairs = chk.n(40, 400)
+    for k in range(3):
+        for tin in range(8):
+            vs = tvals(tin, 12)
+            for tout in range(8):
+                for _ in range(npairs):
+                    a, b = rng.choice(vs), rng.choice(vs)
+                    ops.append(('iu', [k, tin, tout, min(a, b), max(a, b)]))
+    for k in range(3):
+        for tin in range(8):
+            for tout in range(8):
+                for mn, mx in offset_boundaries(tin, tout):
+                    ops.append(('iu', [k, tin, tout, mn, mx]))
+    lines = [f'I{j} {op} ' + ' '.join(zs(x) for x in a) for j, (op, a) in enumerate(ops)]
+    return lines, ops
+
+
+def ideal_cases(rng, n):
+    """array_to_file called directly in a regime where float64 arithmetic is exact (data and intercept
+    multiples of 1/8 below 2^24, slope +-2^k): the ideal (rational) layer must then give the stored
+    integers exactly.  Elements include +-inf and (with nan2zero) NaN; thresholds may be missing,
+    inside or wholly outside the safe range (the path of fix 104ec932); both slope signs."""
+    from fractions import Fraction
+    cases = []
+    for j in range(n):
+        out = rng.randrange(8)
+        ii = np.iinfo(INT_NAMES[out])
+        lo, hi = int(ii.min), int(ii.max)
+        s = Fraction(2) ** rng.randint(-3, 6) * rng.choice([1, 1, -1])
+        i = Fraction(rng.randint(-2 ** 12, 2 ** 12), rng.choice([1, 1, 2, 4, 8])) if rng.random() < 0.8 else Fraction(0)
+        n2z = rng.random() < 0.5
+        ne = rng.choice([1, 2, 3, 5, 8])
+
+        def val():
+            r = rng.random()
+            if r < 0.1:
+                return 'pinf'
+            if r < 0.2:
+                return 'ninf'
+            if r < 0.3 and n2z:
+                return 'nan'
+            base = rng.choice([0, lo, hi, lo // 2, hi // 2, 100, -100]) if abs(hi) < 2 ** 20 else rng.choice([0, 100, -100, 2 ** 20, -2 ** 20])
+            v = Fraction(base) * s + i + Fraction(rng.randint(-2 ** 10, 2 ** 10), 8) * rng.choice([1, 1, abs(s), 100])
+            return v if abs(v) < 2 ** 24 else Fraction(rng.randint(-2 ** 20, 2 ** 20), 8)
+        xs = [val() for _ in range(ne)]
+        fin = [x for x in xs if not isinstance(x, str)]
+        r = rng.random()
+        if r < 0.35 or not fin:
+            mn = mx = None
+        elif r < 0.8:
+            mn, mx = min(fin), max(fin)
+        else:
+            a, b = sorted([Fraction(rng.randint(-2 ** 16, 2 ** 16), 8), Fraction(rng.randint(-2 ** 16, 2 ** 16), 8)])
+            mn, mx = a, b
+        if mn is not None and (mn == mx == 0 or mx <= mn):
+            mn = mx = None
+        cases.append(dict(out=out, s=s, i=i, n2z=n2z, xs=xs, mn=mn, mx=mx))
+    return cases
+
+
+def _xq(v):
+    return v if isinstance(v, str) else 'q%d/%d' % (v.numerator, v.denominator)
+
+
+def ideal_line(j, c):
+    mn = 'ninf' if c['mn'] is None else _xq(c['mn'])
+    mx = 'pinf' if c['mx'] is None else _xq(c['mx'])
+    return (f"Q{j} aq 2 {c['out']} {c['s'].numerator}/{c['s'].denominator} {c['i'].numerator}/{c['i'].denominator} "
+            f"{mn} {mx} {int(c['n2z'])} {len(c['xs'])} " + ' '.join(_xq(x) for x in c['xs']))
+
+
+def ideal_impl(c):
+    from nibabel.volumeutils import array_to_file
+    f = {'pinf': np.inf, 'ninf': -np.inf, 'nan': np.nan}
+    data = np.array([f[x] if isinstance(x, str) else float(x) for x in c['xs']], dtype=np.float64)
+    out = np.dtype(INT_NAMES[c['out']])
+    bio = io.BytesIO()
+    with warnings.catch_warnings(record=True) as wl:
+        warnings.simplefilter('always')
+        try:
+            array_to_file(data, bio, out, offset=0, intercept=float(c['i']), divslope=float(c['s']),
+                          mn=None if c['mn'] is None else float(c['mn']), mx=None if c['mx'] is None else float(c['mx']),
+                          nan2zero=c['n2z'])
+        except ValueError as e:
+            return 'err nanfill' if 'nan_fill' in str(e) else 'err other:' + str(e)[:50], []
+    raw = np.frombuffer(bio.getvalue(), dtype=out)
+    bad = any(s == 'write_cast' for s, _ in warning_sites(wl))
+    return 'ok bad=%d raw=[%s]' % (int(bad), ','.join(str(int(v)) for v in raw)), warning_sites(wl)
+
+
+def run(chk: Check):
+    ensure_impl_path()
+    from common import run_model_parallel
+    chk.rule = ('integer layer: floor_exact/ceil_exact/int->float conversion on integers around every power of two, '
+                'half gap, tie, double-rounding trap and overflow threshold of float16/32/64/longdouble plus random '
+                'bit patterns up to 1100 bits (and the longdouble exponent/CPython digit limits), shared_range for all '
+                '4x8 pairs, int_abs, can_cast, the (u)int->(u)int decisions for 3 writer classes x 8x8 types x '
+                'boundary/random (min,max) pairs. Arrays (<= 16 elements): seed-independent core = constants (incl. '
+                'values not representable in float32), ranges touching the limits of every on-disk type, NaN/+-inf '
+                'mixtures, all-NaN, all-zero, 1e-40..1e38, subnormal steps, (u)int8..64 ranges x 8 on-disk integer types '
+                'x {3 array-writer classes directly, NIfTI-1/2, SPM99/SPM2, Analyze, MGH}; random tail from VERIF_SEED '
+                'over 20 value families; multi-slab arrays (2-D/3-D/4-D shapes x C/F/transposed/strided memory layouts x NaN/inf/extreme '
+                'placements per finite_range slab) through the writers and the image classes, with finite_range itself compared '
+                'with the exact (min, max, has_nan). A case is non-trivial when the data are not representable unchanged in the '
+                'on-disk type; distinct by (route, types, values).')
+    chk.assumptions = ['little-endian x86-64, longdouble = x87 80-bit (checked against the running NumPy by Tables.v '
+                       'and the lemma tables_match); NumPy ' + np.__version__,
+                       'in-memory BytesIO files; arrays of <= 24 elements (the pipeline is element-wise once '
+                       'min, max and has_nan are fixed; finite_range is slab-wise and exercised with multi-slab shapes)',
+                       'float allowance of the direct predicate: ' + FLOAT_ALLOWANCE]
+    chk.trusted.append('Flocq 4.1.0 IEEE754.BinarySingleNaN (operations executed after extraction; Coq stdlib Reals axioms '
+                       'enter only through Flocq proofs erased by extraction)')
+    chk.extra['unproved_statements'] = UNPROVED
+    chk.extra['float_allowance'] = FLOAT_ALLOWANCE
+    chk.build(gen_tables=gen_tables)
+    chk.run_probes()
+    if not chk.model_ok:
+        return
+    facts = platform_facts()
+    # ------------------------------------------------------------ integer layer
+    ilines, iops = int_layer(chk, facts)
+    cases = (core_cases(quick=chk.tier == 'quick') + multislab_core(quick=chk.tier == 'quick')
+             + random_cases(chk.rng, chk.n(3000, 60000)) + multislab_random(chk.rng, chk.n(600, 12000)))
+    rlines, finite_range_eval = finite_range_item(chk, cases)
+    alines = [model_line(i, c) for i, c in enumerate(cases)]
+    qcases = ideal_cases(chk.rng, chk.n(1500, 20000))
+    qlines = [ideal_line(j, c) for j, c in enumerate(qcases)]
+    # the extracted model runs (8 processes) while this process runs the implementation
+    from concurrent.futures import ThreadPoolExecutor
+    pool = ThreadPoolExecutor(1)
+    fut = pool.submit(run_model_parallel, PROP, ilines + alines + qlines + rlines, 8)
+    impl_int = [impl_int_op(op, a) for op, a in iops]
+    impl_q = [ideal_impl(c) for c in qcases]
+    impl_arr = [impl_write(c) for c in cases]
+    mod = fut.result()
+    pool.shutdown()
+    # ------------------------------------------------------------ ideal layer, exact-arithmetic regime
+    for j, c in enumerate(qcases):
+        r, wsites = impl_q[j]
+        m = mod.get(f'Q{j}', '<missing>')
+        chk.count(key=('ideal', j, c['out'], str(c['s']), str(c['i']), tuple(map(str, c['xs']))), tag='ideal:array_to_file')
+        if r.startswith('err'):
+            chk.refusal('ideal:' + r[4:15])
+        desc = {'ideal_case': {k: (str(v) if not isinstance(v, (list, bool, int)) else [str(x) for x in v] if isinstance(v, list) else v)
+                               for k, v in c.items()}}
+        if 'bad=1' in r:
+            chk.violation('property_violation', case=desc, impl_output=r, model_output=m,
+                          predicate='array_to_file: invalid value in the final integer cast (wrap-around)')
+        elif r != m:
+            chk.disagreements += 1
+            chk.violation('correspondence', case=desc, impl_output=r[:300], model_output=m[:300], found_input=False,
+                          predicate='ideal layer (exact-arithmetic regime): stored integers differ from array_to_file',
+                          theorem='correspondence C02/ModelQ.v <-> nibabel/volumeutils.py array_to_file')
+    for j, (op, a) in enumerate(iops):
+        r = impl_int[j]
+        m = mod.get(f'I{j}', '<missing>')
+        big = any(isinstance(x, int) and x.bit_length() > 64 for x in a)
+        chk.count(key=('int', op, tuple(a)) if op not in ('cc',) else None, tag='int:' + op,
+                  sample={'op': op, 'args': [zs(x) for x in a], 'result': r} if j in (5, 4000) else None)
+        if r.startswith('err'):
+            chk.refusal('int:' + r[4:])
+        ipred = int_predicate(op, a, r)
+        if ipred:
+            chk.violation('property_violation', case={'op': op, 'args': [zs(x) for x in a]}, model_output=m[:300],
+                          impl_output=r[:300], predicate=f'{op}: {ipred}')
+        if r != m:
+            chk.disagreements += 1
+            if not ipred:
+                chk.violation('correspondence', case={'op': op, 'args': [zs(x) for x in a]}, model_output=m[:300],
+                              impl_output=r[:300], found_input=False,
+                              predicate='integer layer: model and implementation disagree on ' + op +
+                                        '; the direct predicate of the operation holds',
+                              theorem='correspondence C02/Model.v <-> nibabel/casting.py, arraywriters.py')
+    # ------------------------------------------------------------ finite_range (multi-slab arrays)
+    finite_range_eval(mod)
+    # ------------------------------------------------------------ arrays
+    warn_sites = {}
+    for i, c in enumerate(cases):
+        r = impl_arr[i]
+        m = parse_model(mod.get(str(i), 'err <missing>'))
+        arr_key = (c['route'], c.get('cls', c.get('wk')), c['out'], c['kind'], c.get('k', c.get('t')),
+                   tuple(c.get('bits', c.get('vals'))), tuple(c.get('shape', ())), c.get('mem'))
+        nontriv = not (r['status'] == 'ok' and r.get('slope_f') == 1.0 and r.get('inter_f') == 0.0
+                       and c['kind'] == 'i')
+        chk.count(key=arr_key if nontriv else None,
+                  tag='route:' + (c['cls'] if c['route'] == 'img' else 'writer%d' % c['wk']),
+                  sample=case_desc(c) if i in (7, 900, 5000) else None)
+        chk.tagc('in:' + (KINFO[c['k']][2] if c['kind'] == 'f' else INT_NAMES[c['t']]))
+        chk.tagc('out:' + INT_NAMES[c['out']])
+        if 'fam' in c:
+            chk.tagc('fam:' + c['fam'])
+        for site, msg in r['warn']:
+            warn_sites[site + ': ' + msg[:40]] = warn_sites.get(site + ': ' + msg[:40], 0) + 1
+        # ---- correspondence
+        dis = None
+        if r['status'] != m['status']:
+            dis = ('status', r['status'], m['status'])
+        elif r['status'] == 'ok':
+            if r['slope'] != m['slope'] or canon_zero(r['inter']) != canon_zero(m['inter']):
+                dis = ('slope/inter bits', (r['slope'], r['inter']), (m['slope'], m['inter']))
+            elif m['bad'] == '0' and r['raw'] != m['raw']:
+                dis = ('stored integers', r['raw'], m['raw'])
+            elif m['bad'] == '0' and back_text(r['back']) != m['back']:
+                dis = ('reloaded values', back_text(r['back']), m['back'])
+            elif m['bad'] == '0' and any(s == 'write_cast' for s, _ in r['warn']):
+                dis = ('cast warning', 'RuntimeWarning in the data cast of _write_data', 'all values inside the type')
+            elif m['tc'] == '0' and any(s == 'range_scale_testcast' for s, _ in r['warn']):
+                dis = ('test-cast warning', 'RuntimeWarning in the test cast of _range_scale', 'test cast in range')
+        else:
+            chk.refusal(r['status'][4:])
+        # ---- the property predicate, directly on the implementation
+        pred = None
+        if r['status'] == 'ok':
+            pred = predicate(c, r)
+            if pred is None and any(s == 'write_cast' for s, _ in r['warn']):
+                pred = 'NumPy reported an invalid value in the final integer cast of _write_data (wrap-around)'
+            if pred is None and m.get('status') == 'ok' and m.get('bad') == '1' and not dis:
+                pred = 'a value outside the on-disk integer type reached the final cast (model flag; raw values agree up to the cast)'
+        elif r['status'].startswith('err other'):
+            pred = 'unexpected exception: ' + r['status']
+        if pred:
+            sig = known_signature(c, r, pred)
+            if sig is None and (c.get('cls') == 'analyze' or c.get('wk') == 0) and c['kind'] == 'f':
+                xs = exact_inputs(c)
+                if all(isinstance(x, str) or x == 0 for x in xs) and any(x in ('inf', '-inf') for x in xs):
+                    sig = 'S-C02d'
+            if sig == 'S-C02b':
+                chk.known('S-C02b', 'MGHImage writes float/large-int data to an integer type by silent round-and-clip '
+                                    '(no scaling fields, no refusal): 1e6 -> 32767, +-inf -> type limits')
+            elif sig == 'S-C02c':
+                chk.known('S-C02c', 'stored float32 slope is subnormal: relative rounding error of the slope is large, '
+                                    'scaled values overrun the integer range and are clipped; reload error >> step/2')
+            elif sig == 'S-C02d':
+                chk.known('S-C02d', 'plain ArrayWriter (Analyze, no scaling): float data whose finite values are all 0 '
+                                    'plus +-inf are written without thresholds: +-inf -> integer type limits instead of 0 or a refusal')
+            else:
+                chk.violation('property_violation', case=case_desc(c), predicate=pred,
+                              impl_output={k: (v if k != 'back' else back_text(v)) for k, v in r.items()},
+                              model_output=mod.get(str(i), '')[:400])
+        if dis:
+            chk.disagreements += 1
+            if not pred:
+                chk.violation('correspondence', case=case_desc(c), model_output=str(dis[2])[:400], impl_output=str(dis[1])[:400],
+                              predicate='model and implementation disagree at: ' + dis[0] +
+                                        '; the property predicate holds on this case', found_input=False,
+                              theorem='correspondence C02/ModelF.v <-> nibabel/arraywriters.py, volumeutils.py')
+    chk.extra['runtime_warning_sites'] = warn_sites
+    # ------------------------------------------------------------ in-Coq cross-check of the extraction
+    pairs = []
+    for op, a in [('fe', [1, 2 ** 60 + 2 ** 36 + 1]), ('fe', [1, -(2 ** 24) - 1]), ('ce', [3, 2 ** 64 + 1]),
+                  ('fe', [2, 2 ** 53 + 1]), ('fe', [0, 65519]), ('ce', [1, 2 ** 31 - 1]), ('fe', [1, 2 ** 128])]:
+        j = iops.index((op, a)) if (op, a) in iops else None
+        exp = impl_int_op(op, a)
+        fn = {'fe': 'floor_exact', 'ce': 'ceil_exact'}[op]
+        f = ['fmt_float16', 'fmt_float32', 'fmt_float64', 'fmt_longdouble'][a[0]]
+        want = {'ok pinf': 'COk PInf', 'ok ninf': 'COk NInf'}.get(exp) or 'COk (Fin (%s))' % exp.split()[-1]
+        pairs.append((f'match {fn} {f} ({a[1]}), {want} with COk (Fin a), COk (Fin b) => Z.eqb a b '
+                      f'| COk PInf, COk PInf => true | COk NInf, COk NInf => true | _, _ => false end', f'{op} {a}'))
+    picked = 0
+    for i, c in enumerate(cases):
+        if picked >= 40:
+            break
+        n = len(c.get('bits', c.get('vals')))
+        if n > 3 or i % 97 not in (0, 5, 11):
+            continue
+        m = parse_model(mod.get(str(i), 'err'))
+        if m['status'] == 'ok':
+            pairs.append((f"write_eqb ({case_coq_call(c)}) ({sf_coq(m['slope'])}) ({sf_coq(m['inter'])}) "
+                          f"[{'; '.join('(%d)' % v for v in m['raw'])}]", f'case {i}'))
+        else:
+            pairs.append((f'write_is_err ({case_coq_call(c)})', f'case {i}'))
+        picked += 1
+    imports = ('From Coq Require Import ZArith List Bool Floats.SpecFloat. Import ListNotations. Open Scope Z_scope.\n'
+               'From NV Require Import C02.Model C02.Tables C02.ModelF.\n')
+    ncase, bad = vm_crosscheck(PROP, imports, pairs)
+    chk.vm = {'cases': ncase, 'disagreements': len(bad)}
+    if bad:
+        chk.disagreements += 1
+        chk.violation('correspondence', case={'vm_crosscheck': [pairs[b][1] if isinstance(b, int) and b < len(pairs) else b for b in bad]},
+                      predicate='extracted model disagrees with vm_compute evaluation of the model inside coqc',
+                      found_input=False, theorem='extraction cross-check')
+
+
+def replay(chk, obj):
+    ensure_impl_path()
+    c = obj.get('case')
+    if isinstance(c, dict) and 'ideal_case' in c:
+        from fractions import Fraction
+        q = c['ideal_case']
+        cc = dict(out=q['out'], s=Fraction(q['s']), i=Fraction(q['i']), n2z=q['n2z'],
+                  xs=[x if x in ('pinf', 'ninf', 'nan') else Fraction(x) for x in q['xs']],
+                  mn=None if q['mn'] == 'None' else Fraction(q['mn']), mx=None if q['mx'] == 'None' else Fraction(q['mx']))
+        r, _ = ideal_impl(cc)
+        m = run_model(PROP, [ideal_line(0, cc)]).get('Q0')
+        print('implementation:', r)
+        print('ideal model   :', m)
+        print('property fails on this case' if r != m else 'agree')
+        return 1 if r != m else 0
+    if not isinstance(c, dict) or 'route' not in c:
+        if isinstance(c, dict) and 'op' in c:
+            a = [int(x, 0) for x in c['args']]
+            r = impl_int_op(c['op'], a)
+            print('implementation:', r[:300])
+            print('model         :', run_model(PROP, ['0 %s %s' % (c['op'], ' '.join(zs(x) for x in a))]).get('0', '')[:300])
+            p = int_predicate(c['op'], a, r)
+            print('predicate:', p or 'holds')
+            return 1 if (p or obj.get('kind') == 'correspondence') else 0
+        if (obj.get('inputs') or {}).get('probe_fn'):
+            import defect_probes
+            r = defect_probes.PROBES[obj['inputs']['probe_fn']]()
+            print('defect present' if r else 'defect absent')
+            return 1 if r else 0
+        print('nothing to replay:', obj.get('predicate'))
+        return 1
+    r = impl_write(c)
+    print('case:', {k: c[k] for k in c if k not in ('bits',)})
+    print('implementation:', {k: (v if k != 'back' else back_text(v)) for k, v in r.items()})
+    bad = False
+    if r['status'] == 'ok':
+        p = predicate(c, r)
+        if p is None and any(s == 'write_cast' for s, _ in r['warn']):
+            p = 'invalid value in the final integer cast'
+        print('predicate:', p or 'holds')
+        bad = bool(p)
+    if obj.get('kind') == 'correspondence':
+        m = run_model(PROP, [model_line(0, c)]).get('0')
+        print('model:', m)
+        bad = True
+    print('property fails on this case' if bad else 'property holds on this case')
+    return 1 if bad else 0
